@@ -397,17 +397,22 @@ def r163(repo, ctx):
                   f'conversion from ({given[0]}, {given[1]}) is wrong: {"; ".join(bad)[:160]}', construct=f'moduliToC[{given[0]},{given[1]}]')
     ctx.floor('R16.3', n, 15)
     # compliance matrix
-    s_ok = 0
+    # (index, value) pairs of the stores into the compliance matrix s, written as tuple assignments or one by one
+    cells = {}
     for st in ast.walk(f):
-        if isinstance(st, ast.Assign) and isinstance(st.targets[0], ast.Tuple) and all(isinstance(t, ast.Subscript) and isinstance(t.value, ast.Name) and t.value.id == 's' for t in st.targets[0].elts):
-            idx = [U.src(t.slice).strip('()') for t in st.targets[0].elts]
-            vals = {U.src(v) for v in st.value.elts}
-            if set(idx) == {'0, 0', '1, 1', '2, 2'} and vals == {'1 / E'}:
-                s_ok += 1
-            if set(idx) == {'3, 3', '4, 4', '5, 5'} and vals == {'1 / G'}:
-                s_ok += 1
-            if set(idx) == {'0, 1', '0, 2', '1, 0', '1, 2', '2, 0', '2, 1'} and vals == {'-nu / E'}:
-                s_ok += 1
+        if not isinstance(st, ast.Assign) or len(st.targets) != 1:
+            continue
+        pairs = []
+        t0 = st.targets[0]
+        if isinstance(t0, ast.Tuple) and isinstance(st.value, ast.Tuple) and len(t0.elts) == len(st.value.elts):
+            pairs = list(zip(t0.elts, st.value.elts))
+        elif isinstance(t0, ast.Subscript):
+            pairs = [(t0, st.value)]
+        for t, v in pairs:
+            if isinstance(t, ast.Subscript) and isinstance(t.value, ast.Name) and t.value.id == 's':
+                cells.setdefault(U.src(v), set()).add(U.src(t.slice).strip('()'))
+    s_ok = sum([cells.get('1 / E') == {'0, 0', '1, 1', '2, 2'}, cells.get('1 / G') == {'3, 3', '4, 4', '5, 5'},
+                cells.get('-nu / E') == {'0, 1', '0, 2', '1, 0', '1, 2', '2, 0', '2, 1'}])
     ctx.check(s_ok == 3, 'R16.3', EF, 'moduliToC', f, 'isotropic compliance: 1/E on the normal diagonal, 1/G on the shear diagonal, -nu/E off-diagonal', 'the isotropic compliance matrix is not assembled as 1/E, 1/G, -nu/E')
 
 
